@@ -368,6 +368,8 @@ class NumInterp(Interp):
                          'isinstance': isinstance, 'map': map, 'repr': repr}
 
     def ev(self, n):
+        if isinstance(n, ast.Name) and n.id not in self.env and n.id in getattr(self, 'globals', {}):
+            return self.globals[n.id]          # module-level names the rule models (shared with the interpreters of followed helpers)
         if isinstance(n, ast.Name) and n.id not in self.env and n.id in self.builtins:
             return self.builtins[n.id]
         if isinstance(n, ast.Attribute) and isinstance(n.value, ast.Name) and n.value.id in ('np', 'numpy') and n.value.id not in self.env:
@@ -482,6 +484,7 @@ class NumInterp(Interp):
                 sub = NumInterp(env, call_hook=self.call_hook, attr_hook=self.attr_hook)
                 sub.resolver = getattr(self, 'resolver', None)
                 sub.methods = meths
+                sub.globals = getattr(self, 'globals', {})
                 sub.builtins = self.builtins
                 sub.depth = getattr(self, 'depth', 0) + 1
                 return sub.call(fnode)
@@ -512,6 +515,7 @@ class NumInterp(Interp):
                     sub = NumInterp(env, call_hook=self.call_hook, attr_hook=self.attr_hook)
                     sub.resolver = self.resolver
                     sub.methods = getattr(self, 'methods', None)
+                    sub.globals = getattr(self, 'globals', {})
                     sub.depth = getattr(self, 'depth', 0) + 1
                     return sub.call(fnode)
             if callable(f):
